@@ -325,6 +325,9 @@ func main() {
 			continue
 		}
 		p.dfa = dfaops.FromDFA(d)
+		if p.dfa.Accepting(p.dfa.Start()) {
+			continue // a terminal matching the empty text: what a scanner does with it is not prescribed (left to C08)
+		}
 		p.owner = map[int]string{}
 		for t, states := range tm {
 			for _, st := range states {
